@@ -1505,6 +1505,39 @@ func genHistory(rng *Rng, faultBias int) *cfgHistory {
 			h.Files = append(h.Files, cp)
 			continue
 		}
+		if i > 1 && h.Files[len(h.Files)-1].Fault == "retry-same-file" && h.Files[len(h.Files)-2].Fault == "prebound" && rng.Chance(60) {
+			// after a start that failed on an occupied address and a successful retry: a configuration
+			// that drops about half of the listeners (whatever the failed start left behind on the
+			// address that was occupied must go when that address is dropped)
+			b, _ := json.Marshal(h.Files[len(h.Files)-1])
+			var cp cfgFile
+			json.Unmarshal(b, &cp)
+			cp.Fault, cp.Prebind = "", nil
+			var svcs []cfgSvc
+			for _, s := range cp.Svcs {
+				var ls []cfgListener
+				for _, l := range s.Ls {
+					if rng.Bool() {
+						ls = append(ls, l)
+					}
+				}
+				if len(ls) > 0 {
+					s.Ls = ls
+					svcs = append(svcs, s)
+				}
+			}
+			var leg []cfgLegacy
+			for _, l := range cp.Legacy {
+				if rng.Bool() {
+					leg = append(leg, l)
+				}
+			}
+			if len(svcs)+len(leg) > 0 {
+				cp.Svcs, cp.Legacy = svcs, leg
+				h.Files = append(h.Files, cp)
+				continue
+			}
+		}
 		if i > 0 && rng.Chance(faultBias) {
 			injectFault(rng, &f, h.NAddrs, &idc, nil)
 		} else if i > 0 && rng.Chance(15) && len(h.Files) > 0 && h.Files[len(h.Files)-1].Kind == 0 {
